@@ -16,7 +16,7 @@ impl Tokenizer {
     }
 
     /// invariant of edge insertion at (sn, sw) relative to the lattice `base` the call started from
-    pub open spec fn edges_inv<C: ConnectorCost>(&self, sent: &Sentence, l: &Lattice, base: &Lattice, sn: int, sw: int, progress: bool, c: &C) -> bool {
+    pub open spec fn edges_inv<C: CostModel>(&self, sent: &Sentence, l: &Lattice, base: &Lattice, sn: int, sw: int, progress: bool, c: &C) -> bool {
         &&& l.wf(c) && l.eos.is_none() && l.frontier(sn)
         &&& l.extends(base, sn, sw)
         &&& self.dict.lattice_matches(l, c)
@@ -28,7 +28,7 @@ impl Tokenizer {
 }
 
 /// one insert_node call keeps edges_inv (used by the two lexicon loops and by the unknown-word sink)
-pub proof fn lemma_edge_inserted<C: ConnectorCost>(t: &Tokenizer, sent: &Sentence, l0: Lattice, l1: Lattice, base: Lattice,
+pub proof fn lemma_edge_inserted<C: CostModel>(t: &Tokenizer, sent: &Sentence, l0: Lattice, l1: Lattice, base: Lattice,
         sn: int, sw: int, end: int, widx: WordIdx, wp: WordParam, progress: bool, c: &C)
     requires
         t.edges_inv(sent, &l0, &base, sn, sw, progress, c),
